@@ -51,6 +51,19 @@ def handle : List String → String
         ++ " resolved=" ++ hex (render (resolveLink w d.alias d.target))
         ++ " absrun=" ++ hex (render (absolutize w d.runDir))
     | _, _, _ => "bad-op"
+  -- what `<o>/latest` is after prepareDirs given what it was before
+  | ["slot", prev] =>
+    let pv : Option (Slot String) := match prev with
+      | "absent" => some .absent | "live" => some (.link ⟨false, names ["20250101000000"]⟩)
+      | "dangling" => some (.link ⟨false, names ["20250101000000"]⟩) | "file" => some .file
+      | "emptydir" => some .emptyDir | "fulldir" => some .fullDir | _ => none
+    match pv with
+    | none => "bad-op"
+    | some pv =>
+      match replaceLatest pv (⟨false, names ["new"]⟩ : P String) with
+      | none => "error"
+      | some (.link t) => if t == ⟨false, names ["new"]⟩ then "replaced" else "kept"
+      | some _ => "other"
   | ["survive", k, c, u, s, p, i, pl, up] =>
     let o := runEnd ⟨b k, b c, b u, b s⟩ ⟨b p, b i, b pl, b up⟩
     "exit=" ++ sb o.exitNonZero ++ " foul=" ++ sb o.foulFlag ++ " run=" ++ sb o.runDir ++ " art=" ++ sb o.artifacts
